@@ -113,6 +113,13 @@ def dOpts : Sexp → Option (List Str)
 def dEnum (name pfx opts : Sexp) : Option EnumDecl := do
   some { name := ← dStr name, pfx := ← dStr pfx, opts := ← dOpts opts }
 
+def dEnumField (t r : Sexp) (lr : Option (List Str)) : Option Field := do
+  let r ← dRules r
+  match t with
+  | .list [.atom "ref", p, s] => some (.enumRef (← dStr p) (← dStr s) r lr)
+  | .list [.atom "inlenum", n, pfx, opts] => some (.enumInl (← dEnum n pfx opts) r lr)
+  | _ => none
+
 mutual
 partial def dField : Sexp → Option Field
   | .list [.atom "string", r] => do some (.string (← dRules r) false)
@@ -138,12 +145,8 @@ partial def dField : Sexp → Option Field
     | .list [.atom "ref", p, s] => some (.oneofRef (← dStr p) (← dStr s) r false)
     | .list [.atom "inloneof", n, ps] => some (.oneofInl (← dStr n) (← dProps "props" ps) r false)
     | _ => none
-  | .list [.atom "enum", t, r] => do
-    let r ← dRules r
-    match t with
-    | .list [.atom "ref", p, s] => some (.enumRef (← dStr p) (← dStr s) r false)
-    | .list [.atom "inlenum", n, pfx, opts] => some (.enumInl (← dEnum n pfx opts) r false)
-    | _ => none
+  | .list [.atom "enum", t, r] => dEnumField t r none
+  | .list [.atom "enum", t, r, .list (.atom "lr" :: fs)] => do dEnumField t r (some (← fs.mapM dStr))
   | .list [.atom "array", f, r] => do some (.array (← dField f) (← dRules r))
   | .list [.atom "map", f, r] => do some (.map (← dField f) (← dRules r))
   | _ => none
@@ -243,13 +246,20 @@ def dElem : Sexp → Option Elem
   | s@(.list (.atom "entity" :: _)) => (dEntity s).map .entity
   | _ => none
 
-def dFile : Sexp → Option SrcFile
-  | .list [.atom "j5s", p, .list (.atom "imports" :: imps), .list (.atom "elems" :: els)] => do
-    let imports ← imps.mapM fun i =>
-      match i with
-      | .list [.atom "import", p, a] => do some ({ path := ← dStr p, alias := ← dStr a } : Import)
-      | _ => none
-    some (.j5s (← dStr p) imports (← els.mapM dElem))
+def dJ5s (p : Sexp) (imps els : List Sexp) (decl : Str) : Option SrcFile := do
+  let imports ← imps.mapM fun i =>
+    match i with
+    | .list [.atom "import", p, a] => do some ({ path := ← dStr p, alias := ← dStr a } : Import)
+    | _ => none
+  some (.j5s (← dStr p) imports (← els.mapM dElem) decl)
+
+/-- `pkg`: name of the enclosing `(pkg NAME …)`, which the printer writes as the file's `package`
+declaration unless the file carries its own `(decl NAME)` -/
+def dFile (pkg : Str) : Sexp → Option SrcFile
+  | .list [.atom "j5s", p, .list (.atom "imports" :: imps), .list (.atom "elems" :: els)] =>
+    dJ5s p imps els pkg
+  | .list [.atom "j5s", p, .list (.atom "imports" :: imps), .list (.atom "elems" :: els),
+      .list [.atom "decl", d]] => do dJ5s p imps els (← dStr d)
   | .list [.atom "proto", p, .list (.atom "msgs" :: ms), .list (.atom "enums" :: es)] => do
     let enums ← es.mapM fun e =>
       match e with
@@ -262,7 +272,9 @@ def dBundle : Sexp → Option Bundle
   | .list (.atom "bundle" :: pkgs) => do
     let pkgs ← pkgs.mapM fun p =>
       match p with
-      | .list (.atom "pkg" :: n :: files) => do some ({ name := ← dStr n, files := ← files.mapM dFile } : Pkg)
+      | .list (.atom "pkg" :: n :: files) => do
+        let name ← dStr n
+        some ({ name := name, files := ← files.mapM (dFile name) } : Pkg)
       | _ => none
     some { pkgs := pkgs }
   | _ => none
